@@ -37,6 +37,11 @@ const DataDir = "d/"
 
 // Boot starts a node on ./d/ (relative to the process's working directory).
 func Boot(mode string, k *plan.Knobs) error {
+	installLogHook()
+	if len(k.Orgs) > 0 {
+		ids := append([]int64(nil), k.Orgs...)
+		hooks.GlobalHooks.GetIdsConditionHook = func() (bool, []int64) { return true, ids }
+	}
 	if os.Getenv("SIM_LOG") != "" {
 		f, err := os.OpenFile(os.Getenv("SIM_LOG"), os.O_CREATE|os.O_APPEND|os.O_WRONLY, 0o644)
 		if err == nil {
